@@ -148,7 +148,7 @@ def tlc(specdir, module, cfg, workers=None, timeout=1800, simulate=None, depth=N
         pass
     res = dict(out=out, rc=p.returncode, wall=time.time() - t0,
                generated=int(m.group(1)) if m else 0, distinct=int(m.group(2)) if m else 0,
-               violated=re.findall(r'Invariant (\S+) is violated', out) + re.findall(r'property (\S+) was violated', out))
+               violated=re.findall(r'Invariant (\S+) is violated', out) + re.findall(r'property (\S+) was violated', out) + re.findall(r'Action property (\S+) is violated', out))
     res['ok'] = (p.returncode == 0 and 'Error:' not in out)
     return res
 
